@@ -2,6 +2,7 @@ package main
 
 import (
 	"regexp"
+	"sort"
 	"bytes"
 	"context"
 	"crypto/sha256"
@@ -427,5 +428,26 @@ func dischargeAll(obls []*Obl, timeoutS int) map[*Obl]*SolveResult {
 		}(o)
 	}
 	wg.Wait()
+	// Second chance (robustness against machine load): an obligation that ended "unknown" (solver timeout, no
+	// counter-model) is tried again, alone, with four times the budget, before it is reported. Obligations are
+	// retried one after the other and the pass stops at the first one that still fails: one confirmed failure
+	// decides the check, the rest keep their first verdict.
+	var again []*Obl
+	for _, o := range obls {
+		if r := res[o]; r != nil && r.Status == "unknown" && o.Kind != "vacuity" {
+			again = append(again, o)
+		}
+	}
+	sort.Slice(again, func(i, j int) bool { return res[again[i]].Ms < res[again[j]].Ms })
+	for _, o := range again {
+		r := discharge(o, timeoutS*4)
+		r.Rung += "+retry"
+		first := res[o]
+		r.Ms += first.Ms
+		res[o] = r
+		if r.Status != "proved" {
+			break
+		}
+	}
 	return res
 }
